@@ -7,6 +7,9 @@ import BqVerif.Proofs.GraphFW
 import BqVerif.Proofs.GraphDijkstra
 import BqVerif.Proofs.GraphSubsets
 import BqVerif.Proofs.GraphEmbed
+import BqVerif.Proofs.GraphFcw
+import BqVerif.Proofs.GraphQpu
+import BqVerif.Proofs.KronOps
 /-!
 # C20 — coupling-graph and qudit-permutation utilities match their definitions
 
@@ -22,7 +25,11 @@ Vocabulary (defined in the `Proofs` files, all elementary):
                       vertices of `p` are adjacent;  `IsWalk g i mids j`: `i → mids… → j` along edges;
 * `walkWeight m i mids j`  weight of the non-empty walk `i → mids… → j` in the weight matrix `m`
                       (`none` = ∞), `wle` = `≤` on `ℕ ∪ {∞}`, `Mat.Square m n` = `m` is `n × n`;
-* `ReachIn g S a b`, `ConnectedOn g S`  reachability / connectedness inside the vertex set `S`.
+* `ReachIn g S a b`, `ConnectedOn g S`  reachability / connectedness inside the vertex set `S`;
+* `ReachAvoid g q a b`  reachability by walks all of whose vertices are `≠ q`;
+  `ReachLocal g remote a b`  reachability over edges that are not remote edges;
+* `BqVerif.Kron.*`   monomial-matrix model of `UnitaryMatrix`/`UnitaryBuilder` (`Model/Kron.lean`):
+  a matrix is the list sending column `c` to `(row, phase)`, entry `i^phase`.
 -/
 namespace BqVerif.C20
 open BqVerif.Graph
@@ -287,5 +294,86 @@ theorem C20_embedded_in (g h : G) (hg : g.WF) :
 
 example : ∃ g h : G, g.WF ∧ g.isEmbeddedIn h = true ∧ h.isEmbeddedIn g = false :=
   ⟨⟨3, [(0, 1), (1, 2)]⟩, ⟨3, [(0, 1), (1, 2), (0, 2)]⟩, by simp [G.WF], by decide, by decide⟩
+
+/-! ## is_fully_connected_without, QPUs (get_qpu_to_qudit_map) -/
+
+/-- `is_fully_connected_without(q)` (n ≥ 2, q < n) is true iff all vertices other than `q` are
+mutually reachable by walks avoiding `q`; it raises (IndexError) exactly when the start vertex
+(0, or 1 for q = 0) does not exist. -/
+theorem C20_connected_without (g : G) (hwf : g.WF) (hn : 2 ≤ g.n) (q : Nat) (hq : q < g.n) :
+    (g.isFullyConnectedWithout q = some true ↔
+      ∀ u v, u < g.n → v < g.n → u ≠ q → v ≠ q → ReachAvoid g q u v) ∧
+    (g.isFullyConnectedWithout q).isSome = true :=
+  ⟨isFullyConnectedWithout_iff_all_pairs g hwf hn q hq, isFullyConnectedWithout_isSome g hn q⟩
+
+example : ∃ (g : G) (q : Nat), g.WF ∧ 2 ≤ g.n ∧ q < g.n ∧ g.isFullyConnectedWithout q = some false :=
+  ⟨⟨3, [(0, 1), (1, 2)]⟩, 1, by simp [G.WF], by decide, by decide, by decide⟩
+
+/-- `get_qpu_to_qudit_map()`: a partition of the qudits into the classes of "reachable over non-remote
+edges", each class listed once, duplicate free, ordered by their smallest member, which comes first. -/
+theorem C20_qpu_map (g : G) (hwf : g.WF) (remote : List (Nat × Nat)) :
+    let qs := g.qpuToQudit remote
+    (∀ v, v < g.n → ∃ c ∈ qs, v ∈ c) ∧
+    (∀ c ∈ qs, c ≠ [] ∧ c.Nodup ∧ ∀ v ∈ c, v < g.n) ∧
+    (∀ c ∈ qs, ∀ u ∈ c, ∀ v, v ∈ c ↔ ReachLocal g remote u v) ∧
+    (qs.Pairwise (fun c d => ∀ u ∈ c, ∀ v ∈ d, ¬ ReachLocal g remote u v)) ∧
+    (qs.Pairwise (fun c d => c.headD 0 < d.headD 0)) ∧
+    (∀ c ∈ qs, ∀ v ∈ c, c.headD 0 ≤ v) :=
+  qpuToQudit_spec g hwf remote
+
+example : ∃ (g : G) (remote : List (Nat × Nat)), g.WF ∧ g.qpuToQudit remote = [[0, 2], [1]] :=
+  ⟨⟨3, [(0, 2), (1, 2)]⟩, [(1, 2)], by simp [G.WF], by decide⟩
+
+/-- Witnesses of the known findings `qudit-to-qpu-map-not-indexed-by-qudit` and
+`qpu-connectivity-uses-misindexed-qudit-map` (the model follows the code as written; `…Spec` is the
+documented meaning): `get_qudit_to_qpu_map` is not indexed by qudit, and `get_qpu_connectivity`
+inherits the error. -/
+theorem C20_qpu_defect_witness :
+    ((G.mk 3 [(0, 2), (1, 2)]).quditToQpuImpl [(1, 2)] = [0, 0, 1] ∧
+     (G.mk 3 [(0, 2), (1, 2)]).quditToQpuSpec [(1, 2)] = [0, 1, 0]) ∧
+    (G.mk 4 [(0, 3), (1, 3), (2, 3)]).qpuConnImpl [(1, 3), (2, 3)] ≠
+      (G.mk 4 [(0, 3), (1, 3), (2, 3)]).qpuConnSpec [(1, 3), (2, 3)] :=
+  ⟨quditToQpu_defect_witness, qpuConn_defect_witness⟩
+
+/-- … while the code is right whenever the QPUs, concatenated, are `0, 1, …, n-1`. -/
+theorem C20_qpu_map_contiguous (g : G) (hwf : g.WF) (remote : List (Nat × Nat))
+    (hc : (g.qpuToQudit remote).flatten = List.range g.n) :
+    g.quditToQpuImpl remote = g.quditToQpuSpec remote :=
+  quditToQpuImpl_eq_spec_of_contiguous g hwf remote hc
+
+example : ∃ (g : G) (remote : List (Nat × Nat)), g.WF ∧
+    (g.qpuToQudit remote).flatten = List.range g.n ∧ remote ≠ [] :=
+  ⟨⟨3, [(0, 1), (1, 2)]⟩, [(1, 2)], by simp [G.WF], by decide, by decide⟩
+
+/-! ## Kronecker clause: index arithmetic of otimes / products / builder applies -/
+
+/-- In the monomial-matrix model: `A ⊗ B` sends column `c₁·|B| + c₂` to row `r₁·|B| + r₂` (phases
+add), and `A · B` sends `c` to `A(B(c))` (phases add) — the explicit Kronecker / matrix product. -/
+theorem C20_kron_ops (a b : BqVerif.Kron.Mono) :
+    (BqVerif.Kron.otimes a b).length = a.length * b.length ∧
+    (∀ c1 c2, c1 < a.length → c2 < b.length →
+      (BqVerif.Kron.otimes a b).at (c1 * b.length + c2) =
+        ((a.at c1).1 * b.length + (b.at c2).1, ((a.at c1).2 + (b.at c2).2) % 4)) ∧
+    (∀ c, c < b.length →
+      (BqVerif.Kron.mul a b).at c = ((a.at (b.at c).1).1, ((b.at c).2 + (a.at (b.at c).1).2) % 4)) :=
+  ⟨BqVerif.Kron.otimes_length a b, fun c1 c2 h1 h2 => BqVerif.Kron.otimes_at a b c1 c2 h1 h2,
+   fun c hc => BqVerif.Kron.mul_at a b c hc⟩
+
+/-- Embedding `gen_swap_unitary(r)` on the qudits `(a, b)` of `n` radix-`r` qudits is the digit swap. -/
+theorem C20_kron_embed_swap (n r a b : Nat) (ha : a < n) (hb : b < n) (col : Nat) (hcol : col < r ^ n) :
+    (BqVerif.Kron.embed (BqVerif.Kron.swapMono r) [a, b] (List.replicate n r)).at col =
+      (undigits r (swapDigits (digits r n col) a b), 0) :=
+  BqVerif.Kron.embed_swap_at n r a b ha hb col hcol
+
+/-- The builder model run on the swaps recorded by the loop of `from_qudit_location`
+(`apply_left(swap_utry, (index, pos))` for each of them, all argument checks pass) returns exactly the
+permutation matrix `permFromLocation` = `permSpec`: this discharges, inside Lean, the abstraction
+"apply_left of a swap = digit swap, last applied acts first" made by the `from_qudit_location` model. -/
+theorem C20_kron_swap_builder (n r : Nat) (loc : List Nat) (hnd : loc.Nodup) (hlt : ∀ q ∈ loc, q < n) :
+    BqVerif.Kron.build (List.replicate n r) (BqVerif.Kron.swapOps r (swapLoop n loc).1) =
+      some ((List.range (r ^ n)).map (fun c => (permSpec n r loc c, 0))) :=
+  BqVerif.Kron.build_swapLoop_spec n r loc hnd hlt
+
+example : ∃ (n r a b col : Nat), a < n ∧ b < n ∧ col < r ^ n := ⟨3, 2, 0, 2, 5, by decide⟩
 
 end BqVerif.C20
